@@ -1,5 +1,24 @@
 // C07: the transactions root: before TIP-908 the root of the sparse tree mapping each transaction's signature-free hash to the transaction;
-// from TIP-908 on the root of the dense Merkle tree over the sorted leaves (hash ++ hash of the encoding), named here by spec_dense_txs (A-DET on
-// tip908_transactions, whose leaf construction / sorting is not under contract)
-pub uninterp spec fn spec_dense_txs(m: Map<TxHash, Transaction>) -> HashVal;
+// from TIP-908 on the root of the dense Merkle tree over the sorted leaves (hash ++ hash of the encoding), a function of the SET of leaves (A-DENSE, A-SORT)
+/// a transaction's leaf: its signature-free hash followed by the hash of its whole encoding (so the root commits to the signatures too)
+pub open spec fn leaf_of(tx: Transaction) -> Seq<u8> { spec_txhash(tx).0.0@ + h1(tx.ser()).0@ }
+pub open spec fn leaf_iset(m: Map<TxHash, Transaction>) -> ISet<Seq<u8>> { ISet::new(|x: Seq<u8>| exists|h: TxHash| m.contains_key(h) && x == leaf_of(#[trigger] m[h])) }
+pub open spec fn spec_dense_txs(m: Map<TxHash, Transaction>) -> HashVal { HashVal(dense_root_set(leaf_iset(m))) }
 pub open spec fn spec_root_txs(m: Map<TxHash, Transaction>, tip908: bool) -> HashVal { if tip908 { spec_dense_txs(m) } else { spec_root_smt(m) } }
+/// the leaves built from any enumeration of a hash-keyed transaction set are pairwise different and are exactly the set's leaves
+pub proof fn lemma_leaves(m: Map<TxHash, Transaction>, ks: Seq<TxHash>, lv: Seq<Seq<u8>>)
+    requires is_enum(m, ks), txs_keyed(m), lv == Seq::new(ks.len(), |j: int| leaf_of(m[ks[j]]))
+    ensures lv.no_duplicates(), seq_iset(lv) == leaf_iset(m)
+{
+    assert forall|i: int, j: int| 0 <= i < lv.len() && 0 <= j < lv.len() && i != j implies lv[i] != lv[j] by {
+        assert(ks.contains(ks[i]) && ks.contains(ks[j])); assert(m.contains_key(ks[i]) && m.contains_key(ks[j]));
+        let a = spec_txhash(m[ks[i]]).0.0@; let b = spec_txhash(m[ks[j]]).0.0@;
+        assert(a.len() == 32 && b.len() == 32);
+        if lv[i] == lv[j] { assert(lv[i].subrange(0, 32) =~= a); assert(lv[j].subrange(0, 32) =~= b); assert(a == b); assert(spec_txhash(m[ks[i]]).0.0 == spec_txhash(m[ks[j]]).0.0); assert(ks[i] == ks[j]); }
+    }
+    assert forall|x: Seq<u8>| seq_iset(lv).contains(x) <==> leaf_iset(m).contains(x) by {
+        if lv.contains(x) { let i = choose|i: int| 0 <= i < lv.len() && lv[i] == x; assert(ks.contains(ks[i])); assert(m.contains_key(ks[i]) && x == leaf_of(m[ks[i]])); }
+        if leaf_iset(m).contains(x) { let h = choose|h: TxHash| m.contains_key(h) && x == leaf_of(#[trigger] m[h]); assert(ks.contains(h)); let i = choose|i: int| 0 <= i < ks.len() && ks[i] == h; assert(lv[i] == x); }
+    }
+    assert(seq_iset(lv) =~= leaf_iset(m));
+}
